@@ -54,3 +54,40 @@ Example C10_example :
   index_rune fold121 [120] 55296 = -1 /\ index_byte [120; 197; 191] 83 = 1 /\
   last_index_byte [107; 226; 132; 170; 120] 75 = 1.
 Proof. vm_compute. auto 6. Qed.
+
+(* ---- the code's algorithms (structure-faithful models Impl4/Impl5: the
+   last-byte search with its cut-over to bytealg.IndexString, the minimum over
+   the orbit members supplied by FoldMap / ToUpperLower with truncation of the
+   haystack) compute exactly these Spec functions: for every byte string,
+   every rune / byte argument, every cut-over function and both values of
+   NativeIndex. ---- *)
+From Strcase Require Import Impl Impl4 Impl5 Utf8Enc Instances.
+
+(* indexRuneCase: the first code point equal to r (any r: ASCII, U+FFFD, invalid, multi-byte) *)
+Theorem C10_indexRuneCase : forall native cutover s r, wf s ->
+  indexRuneCase native cutover s r = Ok (rune_index s r).
+Proof. exact indexRuneCase121. Qed.
+Print Assumptions C10_indexRuneCase.
+
+Theorem C10_indexrune_refines : forall native cutover s r, wf s ->
+  Impl5.IndexRune native cutover fold_map121 upper_lower121 s r = Ok (index_rune fold121 s r).
+Proof. exact indexrune_refines121. Qed.
+Print Assumptions C10_indexrune_refines.
+
+Theorem C10_containsrune_refines : forall native cutover s r, wf s ->
+  Impl5.ContainsRune native cutover fold_map121 upper_lower121 s r = Ok (contains_rune fold121 s r).
+Proof. exact containsrune_refines121. Qed.
+
+Theorem C10_indexbyte_refines : forall native cutover s c, wf s -> 0 <= c < 256 ->
+  Impl5.IndexByte native cutover s c = Ok (index_byte s c).
+Proof. exact indexbyte_refines121. Qed.
+Print Assumptions C10_indexbyte_refines.
+
+Theorem C10_indexbyteascii_refines : forall s c, Impl5.IndexByteASCII s c = Ok (index_byte_ascii s c).
+Proof. reflexivity. Qed.
+
+(* self-synchronisation: raw occurrences of an encoding are the segments decoding to it *)
+Theorem C10_self_synchronising : forall s r, wf s -> valid_rune r = true -> 128 <= r -> r <> RuneError ->
+  std_index s (encode r) = rune_index s r.
+Proof. exact std_index_encode. Qed.
+Print Assumptions C10_self_synchronising.
